@@ -1099,7 +1099,11 @@ func (il *inliner) inlineCall(pk *packages.Package, f *ast.File, file string, st
 	g := il.seq
 	callStart, callEnd := tf.Offset(call.Pos()), tf.Offset(call.End())
 	if cont != nil && cont.p1 {
-		fe.edits = append(fe.edits, textEdit{tf.Offset(ins.stmt.Pos()), tf.Offset(ins.stmt.End()), pre, g})
+		post := ""
+		if cont.assign {
+			post = strings.Join(cont.lhs, ", ") + " = " + strings.Join(resTemps, ", ") + "\n"
+		}
+		fe.edits = append(fe.edits, textEdit{tf.Offset(ins.stmt.Pos()), tf.Offset(ins.stmt.End()), pre + post, g})
 		return true
 	}
 	if cont != nil {
@@ -1336,6 +1340,9 @@ type contInfo struct {
 	types []string
 	text  string // `if COND { ... } [else ...]`
 	p1    bool   // the call sits in the Init of the if statement (the whole statement is replaced)
+	// assign: the Init is an assignment to existing variables (lhs): it is repeated behind the body
+	assign bool
+	lhs    []string
 }
 
 // continuation recognises
@@ -1356,8 +1363,22 @@ func (il *inliner) continuation(pk *packages.Package, ins *insertion, call *ast.
 	switch s := ins.stmt.(type) {
 	case *ast.IfStmt:
 		a, ok := s.Init.(*ast.AssignStmt)
-		if !ok || a.Tok != token.DEFINE {
+		if !ok || (a.Tok != token.DEFINE && a.Tok != token.ASSIGN) {
 			return nil
+		}
+		if a.Tok == token.ASSIGN {
+			// `if err = f(); err != nil { …; return … }`: the variables live on after the statement, so the
+			// assignment is kept behind the body and the branch must leave the function
+			if s.Else != nil || len(s.Body.List) == 0 {
+				return nil
+			}
+			if _, isRet := s.Body.List[len(s.Body.List)-1].(*ast.ReturnStmt); !isRet {
+				return nil
+			}
+			ci.assign = true
+			for _, l := range a.Lhs {
+				ci.lhs = append(ci.lhs, text(l))
+			}
 		}
 		as, ifs, ci.p1 = a, s, true
 	case *ast.AssignStmt:
